@@ -9,6 +9,12 @@ booleans. A *cover* is a set S of row indices such that
 Nothing here shares code or ideas with dancing links: `is_cover` counts column sums, `all_covers` tries every
 subset of the eligible rows (2^R subsets; meant for R <= ~10), `all_covers_naive` does the same by calling
 `is_cover` on every subset and is used to cross-check `all_covers`.
+
+For instances beyond subset enumeration (second half of the file): `covers_by_parts` splits the instance into
+independent parts (union-find) and lists the covers of each part by plain first-uncovered-column backtracking on bit
+masks; `why_not_cover_sparse` checks one returned selection directly against the definition; `bell`,
+`perfect_matchings_complete`, `domino_tilings`, `QUEENS` are cover counts known from combinatorics, used to cross-check
+the enumeration on structured families. checks/C07.py cross-checks all of them against the subset enumeration on every run.
 """
 from __future__ import annotations
 
@@ -76,3 +82,156 @@ def all_covers_naive(matrix, is_secondary):
     elig = eligible_rows(matrix, is_secondary)
     return {frozenset(sel) for k in range(len(elig) + 1) for sel in combinations(elig, k)
             if is_cover(matrix, is_secondary, sel)}
+
+
+# ------------------------------------------------------------------ instances beyond subset enumeration
+# (size ladder / long searches).  Still nothing of dancing links here: no link structure, no cover/uncover, no
+# minimum-size column rule.  `split` cuts the instance into independent parts with union-find (rows that share a
+# column belong together); `covers_of_part` lists the covers of one part by the textbook backtracking "take the
+# lowest-numbered primary column that is still uncovered, try every eligible row that has a 1 there and is disjoint
+# from what was chosen" on integer bit masks, with an explicit stack (no recursion: the interpreter's recursion limit
+# is left alone).  The covers of the whole instance are exactly the unions of one cover per part.
+class OracleLimit(Exception):
+    pass
+
+
+def sparse_rows(matrix):
+    return [[j for j, v in enumerate(row) if v] for row in matrix]
+
+
+def why_not_cover_sparse(rows, is_secondary, selection):
+    """why_not_cover on the sparse form (rows[i] = list of the columns where row i has a 1); same sentences."""
+    sel = list(selection)
+    n_rows = len(rows)
+    for i in sel:
+        if isinstance(i, bool) or not isinstance(i, int) or not 0 <= i < n_rows:
+            return f"{i!r} is not a row index of a matrix with {n_rows} rows"
+    if len(set(sel)) != len(sel):
+        return f"a row is selected twice: {sel}"
+    hits = {}
+    for i in sel:
+        for j in rows[i]:
+            hits[j] = hits.get(j, 0) + 1
+    short = sel if len(sel) <= 12 else f"{sel[:12]}... ({len(sel)} rows)"
+    for j, s in enumerate(is_secondary):
+        k = hits.get(j, 0)
+        if not s and k != 1:
+            return f"primary column {j} is covered {k} times by rows {short}"
+        if s and k > 1:
+            return f"secondary column {j} is covered {k} times by rows {short}"
+    for i in sel:
+        if all(is_secondary[j] for j in rows[i]):
+            return f"row {i} covers no primary column but is selected ({short})"
+    return None
+
+
+def split(rows, is_secondary):
+    """Independent parts of the instance: list of (row indices, column indices), every part holding at least one
+    primary column.  Only eligible rows (a 1 in some primary column) take part; a primary column that no eligible row
+    touches is a part with no rows (it has no cover, so the instance has none)."""
+    n_cols = len(is_secondary)
+    parent = list(range(n_cols))
+
+    def find(x):
+        while parent[x] != x:
+            parent[x] = parent[parent[x]]
+            x = parent[x]
+        return x
+
+    elig = [i for i, cols in enumerate(rows) if any(not is_secondary[j] for j in cols)]
+    for i in elig:
+        cols = rows[i]
+        a = find(cols[0])
+        for j in cols[1:]:
+            b = find(j)
+            if a != b:
+                parent[b] = a
+    part_rows, part_cols = {}, {}
+    for j in range(n_cols):
+        part_cols.setdefault(find(j), []).append(j)
+    for i in elig:
+        part_rows.setdefault(find(rows[i][0]), []).append(i)
+    return [(part_rows.get(k, []), cols) for k, cols in part_cols.items() if any(not is_secondary[j] for j in cols)]
+
+
+def covers_of_part(rows, is_secondary, part_rows, part_cols, limit=2_000_000):
+    """All covers of one part as tuples of (global) row indices."""
+    local = {j: b for b, j in enumerate(part_cols)}
+    prim = sum(1 << local[j] for j in part_cols if not is_secondary[j])
+    by_bit = {}
+    for i in part_rows:
+        m = 0
+        for j in rows[i]:
+            m |= 1 << local[j]
+        for j in rows[i]:
+            if not is_secondary[j]:
+                by_bit.setdefault(1 << local[j], []).append((i, m))
+    out, stack = [], [(0, ())]
+    while stack:
+        used, chosen = stack.pop()
+        rest = prim & ~used
+        if not rest:
+            out.append(chosen)
+            if len(out) > limit:
+                raise OracleLimit(f"more than {limit} covers in one part")
+            continue
+        for i, m in by_bit.get(rest & -rest, ()):
+            if not m & used:
+                stack.append((used | m, chosen + (i,)))
+    return out
+
+
+def covers_by_parts(rows, is_secondary, limit=2_000_000):
+    """[covers of part 1, covers of part 2, ...]; the covers of the instance are the unions of one per part (an
+    instance without any primary column has the single, empty, cover: the empty product)."""
+    return [covers_of_part(rows, is_secondary, pr, pc, limit) for pr, pc in split(rows, is_secondary)]
+
+
+# ------------------------------------------------------------------ closed-form counts (cross-checks for the families
+# of checks/C07.py whose number of covers is known by construction)
+QUEENS = {1: 1, 2: 0, 3: 0, 4: 2, 5: 10, 6: 4, 7: 40, 8: 92, 9: 352, 10: 724, 11: 2680, 12: 14200, 13: 73712}
+
+
+def bell(n):
+    """Number of partitions of an n-set (Bell triangle)."""
+    row = [1]
+    for _ in range(n):
+        new = [row[-1]]
+        for v in row:
+            new.append(new[-1] + v)
+        row = new
+    return row[0]
+
+
+def perfect_matchings_complete(v):
+    """Perfect matchings of the complete graph on v vertices: (v-1)!! for even v, none for odd v."""
+    if v % 2:
+        return 0
+    out = 1
+    for k in range(v - 1, 0, -2):
+        out *= k
+    return out
+
+
+def domino_tilings(h, w):
+    """Domino tilings of an h x w board by the broken-profile recurrence (exact integers)."""
+    if (h * w) % 2:
+        return 0
+    if w > h:
+        h, w = w, h
+    cur = {0: 1}
+    for _ in range(h):
+        for c in range(w):
+            nxt = {}
+            for mask, ways in cur.items():
+                if mask & 1 << c:  # cell already filled by a vertical domino from the row above
+                    m = mask & ~(1 << c)
+                    nxt[m] = nxt.get(m, 0) + ways
+                else:
+                    m = mask | 1 << c  # vertical domino reaching into the next row
+                    nxt[m] = nxt.get(m, 0) + ways
+                    if c + 1 < w and not mask & 1 << (c + 1):  # horizontal domino: marks the next cell as filled
+                        m = mask | 1 << (c + 1)
+                        nxt[m] = nxt.get(m, 0) + ways
+            cur = nxt
+    return cur.get(0, 0)
